@@ -255,6 +255,9 @@ def messages_for(p, rng):
         (254, 254, 2, 0, 56, "a b"),
         (rng.randrange(256), rng.randrange(256), rng.randrange(5), rng.randrange(2), rng.randrange(60),
          rng.choice(["on", "ünï", "1/2/3/0/4", "+", "#", "%s", "1,2,3"])),
+        # text MQTT carries and the serial wire would not: line breaks and other blanks inside the payload
+        (d(0), d(1), 1, rng.randrange(2), 47, rng.choice(["line one\nline two", "a\r\nb", "tab\there", "x\n\ny",
+                                                         "\nleading", "v\x0bt", "form\x0cfeed", "nel\x85x"])),
     ]
     return msgs
 
@@ -407,6 +410,10 @@ def run_sub_history(hist, version, persist, prefix, pub_raises=False, sub_raises
     try:
         rg = MqttGW(version, "mqtt", persist, workdir, in_prefix=prefix, out_prefix=prefix,
                     pub_raises=pub_raises, sub_raises=sub_raises)
+        # every other history: a second MQTT gateway of the same protocol version lives in the process (another
+        # broker or prefix, built after this one); what this gateway subscribes to is its own business
+        neighbour = make_real("sync" if len(hist) % 4 else "async", "other/in", "other/out", version) \
+            if len(hist) % 2 == 0 else None
         since = 0
         obs = []
         cov = None
@@ -436,6 +443,9 @@ def run_sub_history(hist, version, persist, prefix, pub_raises=False, sub_raises
             missing = [t for t in need if t not in have]
             if missing and cov is None:
                 cov = (i, missing[0])
+        if neighbour is not None and cov is None and (neighbour[1]["subs"] or neighbour[1]["pubs"]):
+            cov = (len(hist), f"the other gateway in the process was used: subscribed {neighbour[1]['subs'][:2]}, "
+                              f"published {neighbour[1]['pubs'][:2]}")
         return list(rg.sub_log), obs, cov, esc
     finally:
         if workdir:
